@@ -29,6 +29,7 @@ _PLUMBING = re.compile(
 _TOKEN = re.compile(r'"(?:[^"\\]|\\.)*"|\bc\d+\.arg\d+\b|<[^<>]*? as [^<>]*?>(?:::\w+)+|[A-Za-z_]\w*(?:::[A-Za-z_]\w*)+|\b-?\d+_[iu](?:\d+|size)\b|\barg\d+\b|\bc\d+\b|\.[a-z_]\w*\b|'
                     r'\b(?:Add|Sub|Mul|Div|Rem|Shl|Shr|BitAnd|BitOr|BitXor|Not|Neg)\b|\b[A-Z][A-Z0-9_]{2,}\b')
 ABBR = {}          # digest of an abbreviated description -> its leaves (filled by engine.exits and from the reviewed table)
+ABBR_DEC = {}      # digest -> decisions made inside the abbreviated text (current tree only; filled by engine.exits)
 _GENERIC_LABELS = {'Option::None', 'None', 'false', 'true', '()', 'Ok(())', 'const false', 'const true'}
 _REL = [(' <= ', 'le'), (' >= ', 'ge'), (' == ', 'eq'), (' != ', 'ne'), (' < ', 'lt'), (' > ', 'gt')]
 _PAIR = {'lt': 'lt/ge', 'ge': 'lt/ge', 'le': 'le/gt', 'gt': 'le/gt', 'eq': 'eq/ne', 'ne': 'eq/ne'}
@@ -165,6 +166,8 @@ def _top_rel(seg):
 def decisions(text):
     """All primitive decisions inside a description, at any nesting depth."""
     out = set()
+    for m in _MARK.finditer(text or ''):
+        out |= ABBR_DEC.get(m.group(0)[2:], frozenset())
     text = rebalance(text or '')
     for _d, s, e in _groups(text):
         for seg in _top_split(text[s:e], [', ', ' | ', ' ; ', ' & ', '] ', ' := ']):
@@ -173,7 +176,17 @@ def decisions(text):
             if r:
                 a, op, b = r
                 la, lb = leaves(a), leaves(b)
+                # an operand that is exactly an anonymous constant (`x == _`: a literal / associated constant such as u32::MAX) is a
+                # constant, not "unknown context": it must not be taken for any other operand
+                if a.strip() == '_':
+                    la = frozenset({'const_'})
+                if b.strip() == '_':
+                    lb = frozenset({'const_'})
                 if not la and not lb and a.strip() not in ('true', 'false') and b.strip() not in ('true', 'false'):
+                    # both operands are elements handed to an adaptor closure (`.find(|(a, b)| a != b)`): the test is made, what it
+                    # is made on is in the iterator the closure is applied to
+                    if op in ('eq', 'ne') and re.search(r'\bc\d+\.arg\d+', a) and re.search(r'\bc\d+\.arg\d+', b):
+                        out.add(('cmp', 'eq/ne', frozenset(), frozenset()))
                     continue
                 # comparisons with a literal boolean are wrappers of the inner decision; a comparison METHOD (`U256::lt(a, b)`,
                 # `Byte32::eq(a, b)`) wrapped that way is a decision between its two arguments
@@ -211,6 +224,22 @@ def decisions(text):
                     out.add(('cmp', 'lt/ge', la, lb))
                 else:
                     out.add(('cmp', 'lt/ge', lb, la))
+                continue
+            mm = re.match(r'^(?:<[^<>]*? as [^<>]*?>|[A-Za-z_]\w*)(?:::\w+)*::(lt|le|gt|ge|eq|ne)\((.*)\)$', seg, re.S)
+            if mm:
+                # the body of a predicate closure (`fn{Byte32::ne(c1.arg2.0, c1.arg2.1)}`): a comparison method is a decision
+                parts = _top_split(mm.group(2), [', '])
+                if len(parts) == 2:
+                    la, lb, op = leaves(parts[0]), leaves(parts[1]), mm.group(1)
+                    if la or lb or all(re.search(r'\bc\d+\.arg\d+', x) for x in parts):
+                        if op in ('eq', 'ne'):
+                            if sorted(lb) < sorted(la):
+                                la, lb = lb, la
+                            out.add(('cmp', 'eq/ne', la, lb))
+                        elif op in ('lt', 'ge'):
+                            out.add(('cmp', 'lt/ge', la, lb))
+                        else:
+                            out.add(('cmp', 'lt/ge', lb, la))
                 continue
             m = re.search(r'^(.*) is (Some|None|Ok|Err|Break|Continue)$', seg)
             if m and m.group(2) in ('Some', 'None') and re.match(r'^\s*\(?\s*(?:<[^<>]*? as [^<>]*?>|[A-Za-z_]\w*)(?:::\w+)*::next(?:_back)?\(', m.group(1)):
@@ -261,7 +290,7 @@ def facts(exits):
 
 
 _ARG = re.compile(r'arg\d+(?:\*\d+)?$')
-_OPS = re.compile(r'^(?:Add|Sub|Mul|Div|Rem|Shl|Shr|BitAnd|BitOr|BitXor|Not|Neg|-?\d+_[iu](?:\d+|size)|[A-Z][A-Z0-9_]{2,}|Ord::(?:min|max)|'
+_OPS = re.compile(r'^(?:const_|Add|Sub|Mul|Div|Rem|Shl|Shr|BitAnd|BitOr|BitXor|Not|Neg|-?\d+_[iu](?:\d+|size)|[A-Z][A-Z0-9_]{2,}|Ord::(?:min|max)|'
                   r'\w+::(?:saturating|checked|wrapping|overflowing)_\w+|\w+::(?:pow|abs_diff|leading_zeros|trailing_zeros))$')
 
 
@@ -413,6 +442,33 @@ def bypassed(reviewed_exits, actual_exits):
     return out
 
 
+_DURABLE = re.compile(r'^(?:in closure: )?call (Batch::(?:put|put_kv|delete)|<DB as (?:Put|Delete)>::(?:put|delete))\(')
+
+
+def narrowed(reviewed_exits, actual_exits):
+    """Durable writes (batch / DB put, delete) of a storage function that are now made only under a test the reviewed function
+    never made anywhere: the write is skipped where it used to be performed.  (For a rejection an added test is harmless; for a
+    write that the index or the recovery depends on it is not: seeded C03-6 skipped the transaction record of a re-indexed
+    block when one was stored already -- a placeholder of a fetched transaction.)  [(label, new decision)]"""
+    known = set()
+    for e in reviewed_exits:
+        known |= path_decisions(e)
+        known |= decisions(re.sub(r'^in closure: ', '', e.get('label', '')))
+    rev_eff = [_effect(e.get('label', '')) for e in reviewed_exits if _DURABLE.match(e.get('label', ''))]
+    out = []
+    for a in actual_exits:
+        lab = a.get('label', '')
+        if not _DURABLE.match(lab):
+            continue
+        ef = _effect(lab)
+        if not any(r and r[1] == ef[1] and (_subsim(r[2], ef[2]) or _subsim(ef[2], r[2])) for r in rev_eff):
+            continue                       # a new / changed write: reported by lost() on the reviewed side
+        for d in sorted(path_decisions(a), key=repr):
+            if d[0] in ('cmp', 'is') and d[1] != 'flag' and not _covered(d, known) and not (d[0] == 'cmp' and not d[2] and not d[3]):
+                out.append((lab, d))
+    return out
+
+
 def value_tokens(label, strip=True):
     """Ordered non-plumbing tokens of a returned-value description (alternatives `{A | B}` keep their place): two versions
     that compute the result from the same things in the same way agree, whatever the conditions around them look like."""
@@ -471,6 +527,12 @@ def untriggered(reviewed_exits, actual_exits):
     out = []
     for r in reviewed_exits:
         if r.get('cls') != 'reject':
+            continue
+        lab_ = r.get('label', '')
+        if lab_.startswith('in closure: ') and lab_[len('in closure: '):].strip() in _GENERIC_LABELS and \
+                not any(a.get('label', '').startswith('in closure: ') and a.get('cls') == 'reject' for a in actual_exits):
+            # `None` / `false` of an adaptor closure = "skip this element"; written as a loop there is no such exit.  The
+            # decision itself is held by lost(), what it guards by bypassed().
             continue
         tr = set()
         for t in r.get('trigger', []):
